@@ -72,7 +72,8 @@ class World:
         from eaopack.assets import OrderBook
         self.orders = dict(start=[T("2021-01-01 06:00"), T("2021-01-01 00:00")], end=[T("2021-01-01 18:00"), T("2021-01-03 00:00")],
                            capa=[2.0, -1.5], price=[2.5, 4.0])
-        self.ob = OrderBook(name="ob", nodes=n1, orders=self.orders)
+        self.orders_df = pd.DataFrame(self.orders)   # orders handed over as DataFrame: kept as numpy arrays by the order book
+        self.ob = OrderBook(name="ob", nodes=n1, orders=self.orders_df)
         self.pf = Portfolio([self.con, self.sto, self.ob, self.tr, self.mk2, self.st])
         self.fm = SimpleContract(name="fm", nodes=n1, price="p", min_cap=-5.0, max_cap=5.0)
         self.flat = Portfolio([self.fm, self.isto, self.itr])
@@ -95,7 +96,7 @@ class World:
 
     def objects(self):
         return dict(con=self.con, sto=self.sto, tr=self.tr, mk2=self.mk2, isto=self.isto, itr=self.itr, st=self.st, pf=self.pf,
-                    fm=self.fm, flat=self.flat, capd=self.capd, taked=self.taked, P=self.P, ob=self.ob, orders=self.orders,
+                    fm=self.fm, flat=self.flat, capd=self.capd, taked=self.taked, P=self.P, ob=self.ob, orders=self.orders, orders_df=self.orders_df,
                     ctx=(self.cur, self.last, None if self.last_op is None else "op"))
 
     def key(self):
